@@ -20,6 +20,9 @@ mod shrink;
 
 use serde_json::{json, Value};
 use std::collections::{BTreeMap, BTreeSet};
+
+#[global_allocator]
+static GLOBAL: hooks::SimAlloc = hooks::SimAlloc;
 use std::sync::atomic::Ordering;
 use std::time::Instant;
 
@@ -95,6 +98,7 @@ fn e1_main(a: &Args) -> i32 {
     let max_shrunk = a.u64("max-shrunk", 3);
     let max_violations = a.u64("max-violations", 6) as usize;
     let sweep_every = a.u64("sweep-every", 0);
+    let mut extra_execs = 0u64;
     let started = Instant::now();
 
     save_diag_fd();
@@ -218,6 +222,9 @@ fn e1_main(a: &Args) -> i32 {
             if run2.threads.iter().flatten().any(|o| o.fresh) {
                 bump(&mut faults, "operand-address-reuse", 1);
             }
+            if run2.alloc_yield {
+                bump(&mut faults, "runs-with-preemption-at-allocator-calls", 1);
+            }
         }
         for c in rep.cells.iter() {
             if cells.len() < 20000 {
@@ -269,6 +276,7 @@ fn e1_main(a: &Args) -> i32 {
                         variant.fault = None;
                         let r = e1::exec_in_child(&variant, &isos2);
                         bump(&mut sums, "one_preempt_sweep_schedules", 1);
+                        extra_execs += 1;
                         bump(&mut sums, "steps", r.steps);
                         bump(&mut sums, "switches_in_call", r.switches_in_call);
                         if r.switches_in_call >= 1 {
@@ -348,7 +356,7 @@ fn e1_main(a: &Args) -> i32 {
     let _ = std::fs::write(&nt_path, bytes);
 
     let summary = json!({
-        "engine": "e1", "worker": worker, "runs": runs, "sums": sums, "strategies": strategies, "threads": threads_hist,
+        "engine": "e1", "worker": worker, "runs": runs + extra_execs, "generated_runs": runs, "sums": sums, "strategies": strategies, "threads": threads_hist,
         "shapes": shapes, "faults_fired": faults, "probes": probes, "cells": cells.iter().collect::<Vec<_>>(),
         "determinism": {"checked": det_checked, "mismatches": det_mismatch},
         "oracle": {"forks": oracle.forks, "queries": oracle.queries, "memo": oracle.memo_len()},
